@@ -89,6 +89,11 @@ pub struct ConnMon {
 #[derive(Default, Clone)]
 pub struct NciSeen {
     pub tokens: BTreeMap<u64, [u8; 16]>,
+    /// the connection IDs themselves, by sequence number (most recent 256)
+    pub cids: BTreeMap<u64, Vec<u8>>,
+    /// destination CID of the last short-header packet this connection sent
+    pub last_dcid_sent: Option<Vec<u8>>,
+    pub last_dcid_sent_ns: u64,
     pub max_rpt: u64,
     pub srcs: Vec<SocketAddr>,
     /// sequence numbers the receiving connection itself announced as retired
@@ -355,11 +360,13 @@ impl Mon {
                                 let seq = if data.len() >= 8 { Some(u32::from_le_bytes(data[..4].try_into().unwrap())) } else { None };
                                 self.dgram_arrivals.entry((ei, ch)).or_default().push(seq);
                             }
-                            Frame::NewConnectionId { seq, retire_prior_to, token, .. } => {
+                            Frame::NewConnectionId { seq, retire_prior_to, token, cid } => {
                                 let n = self.nci_seen.entry((ei, conn.pair)).or_default();
                                 n.tokens.insert(*seq, *token);
+                                n.cids.insert(*seq, cid.clone());
                                 if n.tokens.len() > 256 {
                                     n.tokens.pop_first(); // keep the most recent ones
+                                    n.cids.pop_first();
                                 }
                                 n.max_rpt = n.max_rpt.max(*retire_prior_to);
                                 if !n.srcs.contains(&d.src) {
@@ -817,6 +824,11 @@ impl Mon {
         // RETIRE_CONNECTION_ID frames this connection sent: the CIDs (and reset tokens) it has
         // given up for certain
         if self.lane == Lane::Null {
+            if let Some(p) = decoded.iter().flatten().flatten().filter(|p| p.pkt.ty == PType::Short).last() {
+                let n = self.nci_seen.entry((ei, conn.pair)).or_default();
+                n.last_dcid_sent = Some(p.pkt.dcid.clone());
+                n.last_dcid_sent_ns = now;
+            }
             for f in decoded.iter().flatten().flatten().flat_map(|p| p.frames.iter()) {
                 if let Frame::RetireConnectionId { seq } = f {
                     let n = self.nci_seen.entry((ei, conn.pair)).or_default();
